@@ -6,6 +6,7 @@ from typing import Dict, List, Optional, Tuple
 
 from ..cfg import CFG, Node
 from ..core import AnalysisError, Cls, Fn, Repo, call_name, calls_in, const_value, dotted, get_kw, last_attr, short, walk_no_nested
+from ..pat import has
 from ..report import Check
 from ..terms import Poly, TermBuilder, mentions, single_atom
 from ..util import self_attr_stores
@@ -139,7 +140,7 @@ def _tree_ctor(ck: Check, repo: Repo) -> None:
     # constructor: 2*capacity nodes filled with the neutral element; capacity power of two
     init = repo.fn(ST, "SegmentTree.__init__")
     src = ast.unparse(init.node)
-    ck.ob("C11.1", init, init.node, "range(2 * capacity)" in src and "init_value" in src, "the tree has 2*capacity nodes initialised with the neutral element",
+    ck.ob("C11.1", init, init.node, has(src, 'range(2 * $capacity)') and "init_value" in src, "the tree has 2*capacity nodes initialised with the neutral element",
           construct="tree allocation")
     for sub, op, neutral in (("SumSegmentTree", "operator.add", "0.0"), ("MinSegmentTree", "min", "float('inf')")):
         si = repo.fn(ST, f"{sub}.__init__")
@@ -271,7 +272,7 @@ def _who_writes(ck: Check, repo: Repo) -> None:
     ck.ob("C11.2", upd, fors[0] if fors else upd.node, ok, "index k is paired with priority k (zip(indices, priorities))")
     # tree capacity >= max_size (power of two loop)
     src = ast.unparse(init.node)
-    ck.ob("C11.4", init, init.node, "while tree_capacity < max_size" in src and "tree_capacity *= 2" in src,
+    ck.ob("C11.4", init, init.node, has(src, 'while $tree_capacity < $max_size:\n    ...') and has(src, '$tree_capacity *= 2'),
           "the tree capacity is the smallest power of two >= max_size", construct="tree capacity loop")
 
 
